@@ -58,6 +58,10 @@ pub struct C08Case {
     pub cache: Option<(usize, i32, i32)>,
     /// offsets in 1e-3 degrees for the estimate check
     pub estimate: (i16, i16),
+    /// declared rate unit of the electric model: 0 kWh/mile, 1 kWh/km, 2 kWh/m (the model is an
+    /// input; declaring another distance basis must carry through consistently)
+    #[serde(default)]
+    pub elec_rate_unit: u8,
 }
 
 pub struct C08;
@@ -89,9 +93,22 @@ fn base_model(i: usize) -> Result<Pm, String> {
     Ok(m)
 }
 
-fn record(i: usize, adjustment: Option<f64>, cache: Option<(usize, i32, i32)>) -> Result<PredictionModelRecord, String> {
+fn rate_unit_for(i: usize, elec_rate_unit: u8) -> EnergyRateUnit {
+    let native = model_rate_unit(i);
+    if native == EnergyRateUnit::KilowattHoursPerMile {
+        [
+            EnergyRateUnit::KilowattHoursPerMile,
+            EnergyRateUnit::KilowattHoursPerKilometer,
+            EnergyRateUnit::KilowattHoursPerMeter,
+        ][elec_rate_unit as usize % 3]
+    } else {
+        native
+    }
+}
+
+fn record(i: usize, adjustment: Option<f64>, cache: Option<(usize, i32, i32)>, elec_rate_unit: u8) -> Result<PredictionModelRecord, String> {
     let pm = base_model(i)?;
-    let unit = model_rate_unit(i);
+    let unit = rate_unit_for(i, elec_rate_unit);
     let ideal = find_min_energy_rate(&pm, &unit).map_err(|e| e.to_string())?;
     let cache = match cache {
         None => None,
@@ -216,9 +233,18 @@ impl Prop for C08 {
             soc,
             proptest::option::weighted(0.4, (0.5f64..2.0).prop_map(|v| (v * 20.0).round() / 20.0)),
             proptest::option::weighted(0.35, (1usize..=64, -1i32..=3, -1i32..=3)),
-            (-300i16..300, -300i16..300),
+            (-300i16..300, -300i16..300, 0u8..3, proptest::bool::weighted(0.4)),
         )
-            .prop_map(|(vehicle, edges, (speed_unit, dist_unit, time_unit), (service_dist_unit, ssu, grade_unit), capacity_kwh, soc, adjustment, cache, estimate)| C08Case {
+            .prop_map(|(vehicle, mut edges, (speed_unit, dist_unit, time_unit), (service_dist_unit, ssu, grade_unit), capacity_kwh, soc, adjustment, cache, (e0, e1, elec_rate_unit, pooled))| {
+                if pooled {
+                    // few distinct (speed, grade) pairs: repeated cache keys along the history
+                    for e in edges.iter_mut() {
+                        e.1 = 20.0 + 20.0 * ((e.1 / 20.0).floor() % 4.0);
+                        e.2 = ((e.2 * 10.0).round() / 10.0).clamp(-0.2, 0.2);
+                    }
+                }
+                let estimate = (e0, e1);
+                C08Case {
                 vehicle,
                 edges,
                 speed_unit,
@@ -232,6 +258,8 @@ impl Prop for C08 {
                 adjustment,
                 cache,
                 estimate,
+                elec_rate_unit,
+                }
             })
             .boxed()
     }
@@ -241,8 +269,9 @@ impl Prop for C08 {
         o.label(format!("vehicle-{}", vname));
         o.label_if(c.cache.is_some(), "prediction-cache");
         o.label_if(c.adjustment.is_some(), "real-world-adjustment");
+        o.label_if(c.vehicle % 3 != 0, format!("electric-rate-unit-{}", c.elec_rate_unit % 3));
         let cap = Energy::new(c.capacity_kwh);
-        let rec = |i: usize| record(i, c.adjustment, c.cache);
+        let rec = |i: usize| record(i, c.adjustment, c.cache, c.elec_rate_unit);
         let base: Arc<dyn VehicleType> = match c.vehicle % 3 {
             0 => match rec(0).and_then(|r| ICE::new("vehicle".into(), r).map_err(|e| e.to_string())) {
                 Ok(v) => Arc::new(v),
@@ -421,7 +450,7 @@ impl Prop for C08 {
                 _ => soc > 0.0,
             };
             let (pmodel, lru, rate_unit) = if electric_mode {
-                (pm_elec.as_ref(), lru_elec.as_mut(), model_rate_unit(if c.vehicle % 3 == 1 { 1 } else { 2 }))
+                (pm_elec.as_ref(), lru_elec.as_mut(), rate_unit_for(if c.vehicle % 3 == 1 { 1 } else { 2 }, c.elec_rate_unit))
             } else {
                 (pm_liq.as_ref(), lru_liq.as_mut(), model_rate_unit(if c.vehicle % 3 == 0 { 0 } else { 3 }))
             };
@@ -550,7 +579,7 @@ impl Prop for C08 {
                 _ => (2, true),
             };
             if let Ok(pmi) = base_model(ideal_i) {
-                let unit: EnergyRateUnit = model_rate_unit(ideal_i);
+                let unit: EnergyRateUnit = rate_unit_for(ideal_i, c.elec_rate_unit);
                 if let Ok(ideal) = find_min_energy_rate(&pmi, &unit) {
                     let d_rate_unit = dist.as_f64() * dist_si(sdu) / dist_si(rate_distance_unit(unit));
                     let want = ideal.as_f64() * d_rate_unit;
